@@ -11,7 +11,6 @@ CLAIMS = {
     # pid: (level text, level note, design ref)
 }
 NOT_APPLICABLE = {
-    "C11": "memo table is a third-party hash map keyed by a machine address: CBMC does not terminate on hashbrown, Verus cannot ingest Memoized::go (GAT Mode, pointer cast, entry API); left-recursion termination is a liveness property. No contract within reach decides it (DESIGN 4/C11).",
 }
 PENDING = "check not built yet in this tree (work in progress; see DESIGN 4 for the plan)"
 
@@ -44,12 +43,13 @@ m = {
         "guard": "cfg(any(kani, chumsky_verif))",
         "enable": "cargo kani sets cfg(kani); the native replay binary is built with RUSTFLAGS='--cfg chumsky_verif'; both with CHUMSKY_VERIF_ENTRY=/verif/kani/entry.rs CHUMSKY_VERIF_DIR=/verif/kani",
         "baseline_off_cmd": "cd /repo && cargo test --workspace --no-fail-fast --offline",
-        "source_commits": ["254dc5a", "3d657a1", "16717d6"],
+        "source_commits": ["254dc5a", "3d657a1", "16717d6", "cb733f8"],
         "add_only": True,
+        "add_only_note": "every hook commit only adds lines; cb733f8 adds a cfg attribute line above the existing `use hashbrown::HashMap;` (so that under cfg(all(kani, feature = \"memoization\")) the name HashMap is the map contract instead) - no existing line is rewritten or deleted",
     },
     "engines": [
         {"name": "kani", "path": "/verif/kani", "serves_properties": sorted(CLAIMS), "kind_free_text": "Kani 0.68 / CBMC 6.11 harnesses compiled into the real crate through the cfg hook; loop-free harnesses over symbolic input of unbounded length with contract stubs as children"},
-        {"name": "verus", "path": "/verif/verus", "serves_properties": [p for p in sorted(CLAIMS) if p in ("C02", "C03", "C05", "C06", "C09")], "kind_free_text": "Verus on functions extracted mechanically from /repo each run, plus theory lemmas over the contracts"},
+        {"name": "verus", "path": "/verif/verus", "serves_properties": [p for p in sorted(CLAIMS) if p in ("C02", "C03", "C05", "C06", "C09", "C11", "C15")], "kind_free_text": "Verus on functions extracted mechanically from /repo each run, plus theory lemmas over the contracts"},
         {"name": "native-replay", "path": "/verif/replay", "serves_properties": sorted(CLAIMS), "kind_free_text": "the same harness bodies run natively over a small scope to produce and replay counterexamples (never evidence of proof)"},
     ],
     "checks": checks,
